@@ -3,6 +3,9 @@
 #include "psc/error.h"
 #include "nodes/loop/control.h"
 #include "nodes/loop/while.h"
+#ifdef PSEUDOENGINE2_VERIF
+#include "verif.h"
+#endif
 
 WhileLoopNode::WhileLoopNode(const Token &token, Node &condition, PSC::Block &block)
     : UnaryNode(token, condition), block(block)
@@ -10,6 +13,9 @@ WhileLoopNode::WhileLoopNode(const Token &token, Node &condition, PSC::Block &bl
 
 std::unique_ptr<NodeResult> WhileLoopNode::evaluate(PSC::Context &ctx) {
     while (true) {
+#ifdef PSEUDOENGINE2_VERIF
+        PE2Verif::tick(token, ctx);
+#endif
         auto conditionRes = node.evaluate(ctx);
 
         if (conditionRes->type != PSC::DataType::BOOLEAN)
